@@ -45,12 +45,10 @@ Why(e) ==
              ELSE ""
     [] e.ev = "put" -> IF ~Mine(e.g, e.buf) THEN "put of a buffer the call does not own" ELSE ""
     [] e.ev = "ret" ->
-         LET c == CallOf(e.g)
-             fin == IF c.st.pc = "done" THEN c.st ELSE FinishF(C20(c.vec), [c.st EXCEPT !.parts = <<>>])
-             full == ParseResult("2.0", e.s)
-         IN  IF fin.res.ok # full.res.ok THEN "SPEC: replayed automaton differs from the sequential run"
-             ELSE IF e.ok # fin.res.ok THEN "accept/reject differs from the sequential specification"
-             ELSE IF e.ok /\ e.obj # [k \in 1..Len(Order20) |-> fin.obj[Order20[k]]] THEN "object differs from the sequential specification"
+         \* the call's result is the sequential specification's on its own input alone
+         LET full == ParseResult("2.0", e.s)
+         IN  IF e.ok # full.res.ok THEN "accept/reject differs from the sequential specification"
+             ELSE IF e.ok /\ e.obj # [k \in 1..Len(Order20) |-> full.obj[Order20[k]]] THEN "object differs from the sequential specification"
              ELSE ""
     [] OTHER -> "unknown event"
 
